@@ -1,11 +1,13 @@
 (* C02 — device memory behaves like an aliased byte array; misuse raises.
 
    Vocabulary: Model.step c s o is one C++ statement of a history on the model of occa::memory (cfg
-   `fixed` = /repo with fixes/C02-1..6, `pinned` = the code before them); Spec.s_step is the abstract
-   byte-map specification (slices/casts are views of the same buffer, clones and malloc(src) are new
-   buffers, misuse is ERR and changes nothing).  `ops_ok h` is the guard of DESIGN.md: integer
-   arguments below 2^40 in absolute value and dtype sizes in 1..2^20, so that no 64-bit product or sum
-   in the bound checks wraps; the wrapping region is covered by the `wrapped_*` theorems below. *)
+   `fixed` = /repo with fixes/C02-1..7, `pinned` = the code before them, `fixed6` = C02-1..6 only);
+   Spec.s_step is the abstract byte-map specification (slices/casts are views of the same buffer, clones and
+   malloc(src) are new buffers, misuse is ERR and changes nothing).  `ops_ok h` is not a guard but the domain
+   of the C++ interface: every integer argument is a dim_t value (-2^63 <= x < 2^63, ALL of them, including
+   INT64_MIN and INT64_MAX) and every dtype size is a positive `int`.  With fixes/C02-7 (entriesToBytes) no
+   product or sum of the bound checks wraps; the wrapping arithmetic of the code before it is refuted by the
+   `wrapped_*_refuted` witnesses below. *)
 From Coq Require Import List ZArith Bool Lia.
 From OV.C02 Require Import Base Model Spec Statements Arith Lists Proofs.
 Import ListNotations.
@@ -54,7 +56,7 @@ Proof. exact uninit_raises_gen. Qed.
 Print Assumptions uninit_raises.
 
 Ltac solve_ops_ok :=
-  unfold ops_ok; repeat (apply Forall_cons; [cbn [op_ok]; unfold small, dt_ok, ARG, DTMAX; repeat split; try lia |]);
+  unfold ops_ok; repeat (apply Forall_cons; [cbn [op_ok]; unfold small, dt_ok, two63, DTMAX; repeat split; try lia |]);
   apply Forall_nil.
 
 (* ---- non-vacuity: a history that slices, casts, clones, copies host<->device and device<->device *)
@@ -76,6 +78,22 @@ Example demo_run :
 Proof. vm_compute. reflexivity. Qed.
 Example demo_spec : s_run sinit demo = run fixed init demo.
 Proof. symmetry. apply refines_views. exact demo_ok. Qed.
+
+(* non-vacuity at the ends of the dim_t range: every such request is in the theorems' domain and raises *)
+Definition extremes : list op :=
+  [ OMallocH 0 16 1 7 false; OCast 1 0 4;
+    OCopyToH 1 9223372036854775807 9223372036854775807; OCopyToH 1 (-9223372036854775808) 0;
+    OCopyFromH 0 4611686018427387904 1 9; OSlice 2 1 9223372036854775807 (-1); OSlice 2 1 1 9223372036854775807;
+    OCopyFromM 1 0 2305843009213693952 0 4611686018427387904; OCopyToM 1 0 (-9223372036854775808) 9223372036854775807 0;
+    OMalloc 3 9223372036854775807 2147483647; OWrap 3 (-9223372036854775808) 8 1; OMallocM 3 4611686018427387904 1 0;
+    OCopyToH 0 (-1) 0 ].
+Example extremes_ok : ops_ok extremes.
+Proof. unfold extremes. solve_ops_ok. Qed.
+Example extremes_run :
+  run fixed init extremes =
+  [ OK; OK; ERR; ERR; ERR; ERR; ERR; ERR; ERR; ERR; ERR; ERR;
+    OKB [7; 38; 69; 100; 131; 162; 193; 224; 255; 30; 61; 92; 123; 154; 185; 216] ].
+Proof. vm_compute. reflexivity. Qed.
 
 (* ---- the pinned code (before fixes/C02-1..6) violates the property: witnesses *)
 
@@ -122,26 +140,32 @@ Theorem overlap_memcpy_refuted :
 Proof. vm_compute; reflexivity. Qed.
 Print Assumptions overlap_memcpy_refuted.
 
-(* ---- outside the guard (arguments >= 2^40): the wrapped case, on the repaired code as well.
-   Recorded as known finding huge_arg (docs/notes/C02.known). *)
+(* ---- the wrapping arithmetic before fixes/C02-7 (cfg fixed6 = C02-1..6 applied, as well as pinned): arguments
+   near the ends of the dim_t range.  On the repaired code the same requests raise. *)
 
 (* the unsigned product dtypeSize * count wraps: a count of 2^62+1 floats is accepted as 4 bytes *)
-Theorem wrapped_count_accepted :
+Theorem wrapped_count_accepted_refuted :
   let h := [OMallocH 0 16 1 7 false; OCast 1 0 4; OCopyToH 1 4611686018427387905 0] in
-  run fixed init h = [OK; OK; OKB [7; 38; 69; 100]] /\ s_run sinit h = [OK; OK; ERR].
-Proof. split; vm_compute; reflexivity. Qed.
-Print Assumptions wrapped_count_accepted.
+  ops_ok h /\ run fixed6 init h = [OK; OK; OKB [7; 38; 69; 100]] /\ run pinned init h = [OK; OK; OKB [7; 38; 69; 100]] /\
+  s_run sinit h = [OK; OK; ERR] /\ run fixed init h = [OK; OK; ERR].
+Proof. split; [solve_ops_ok | repeat split; vm_compute; reflexivity]. Qed.
+Print Assumptions wrapped_count_accepted_refuted.
 
 (* the signed product dtypeSize * offset and the signed sum bytes + offset overflow (undefined behaviour) *)
-Theorem wrapped_overflow_ub :
-  run fixed init [OMallocH 0 16 1 7 false; OCast 1 0 4; OCopyToH 1 1 4611686018427387905] = [OK; OK; CRASH COvf] /\
-  run fixed init [OMallocH 0 16 1 7 false; OCopyToH 0 9223372036854775807 1] = [OK; CRASH COvf].
-Proof. split; vm_compute; reflexivity. Qed.
-Print Assumptions wrapped_overflow_ub.
+Theorem wrapped_overflow_ub_refuted :
+  let h1 := [OMallocH 0 16 1 7 false; OCast 1 0 4; OCopyToH 1 1 4611686018427387905] in
+  let h2 := [OMallocH 0 16 1 7 false; OCopyToH 0 9223372036854775807 1] in
+  let h3 := [OMalloc 0 (-9223372036854775808) 4] in
+  ops_ok h1 /\ ops_ok h2 /\ ops_ok h3 /\
+  run fixed6 init h1 = [OK; OK; CRASH COvf] /\ run fixed6 init h2 = [OK; CRASH COvf] /\ run fixed6 init h3 = [CRASH COvf] /\
+  run fixed init h1 = [OK; OK; ERR] /\ run fixed init h2 = [OK; ERR] /\ run fixed init h3 = [ERR].
+Proof. split; [solve_ops_ok | split; [solve_ops_ok | split; [solve_ops_ok | repeat split; vm_compute; reflexivity]]]. Qed.
+Print Assumptions wrapped_overflow_ub_refuted.
 
 (* bytes = -1 passes `bytes >= -1`: with a 3-byte dtype, count (2^64-1)/3 and offset 1 are accepted and the
    backend is asked to copy 2^64-1 bytes *)
-Theorem wrapped_count_out_of_bounds :
-  run fixed init [OMallocH 0 16 1 7 false; OCast 1 0 3; OCopyToH 1 6148914691236517205 1] = [OK; OK; CRASH COob].
-Proof. vm_compute; reflexivity. Qed.
-Print Assumptions wrapped_count_out_of_bounds.
+Theorem wrapped_count_out_of_bounds_refuted :
+  let h := [OMallocH 0 16 1 7 false; OCast 1 0 3; OCopyToH 1 6148914691236517205 1] in
+  ops_ok h /\ run fixed6 init h = [OK; OK; CRASH COob] /\ run fixed init h = [OK; OK; ERR].
+Proof. split; [solve_ops_ok | split; vm_compute; reflexivity]. Qed.
+Print Assumptions wrapped_count_out_of_bounds_refuted.
